@@ -28,7 +28,7 @@ Fail(prop, rule, e) == PrintT(<<"FAIL", prop, rule, e.hi, (IF Has(e, "oi") THEN 
 
 NoHandle == [open |-> FALSE, name |-> "", view |-> <<>>, cur |-> 0, known |-> TRUE, fill |-> 0, clean |-> TRUE]
 S0 == [files |-> <<>>, cfopen |-> FALSE, hd |-> NoHandle, parked |-> NoHandle, mode |-> "plain",
-       faulted |-> FALSE, taint |-> {}, unrec |-> {}]
+       faulted |-> FALSE, taint |-> {}, unrec |-> {}, gone |-> FALSE]
 
 StreamRuns(streams, n) == RNorm(streams[CHOOSE i \in 1..Len(streams) : streams[i].name = n].runs)
 InitFiles(streams) == [n \in {streams[i].name : i \in 1..Len(streams)} |-> StreamRuns(streams, n)]
@@ -68,7 +68,12 @@ OkStep(st, e) ==
   LET hd == st.hd  v == e.res.v
       V(b, st2, rule) == [valid |-> b, st |-> st2, rule |-> rule]
   IN
-  CASE e.op = "open" -> V(TRUE, [st EXCEPT !.cfopen = TRUE, !.hd = NoHandle], "open")
+  CASE e.op = "open" -> V(TRUE, [st EXCEPT !.cfopen = TRUE, !.hd = NoHandle, !.gone = FALSE], "open")
+    \* the CompoundFile is dropped (or consumed by into_inner) while handles are alive: a handle that is
+    \* dropped with unwritten data loses it, so the stream's stored content becomes unknown (taint)
+    [] e.op = "drop_cf" -> V(TRUE, [st EXCEPT !.cfopen = FALSE, !.gone = TRUE,
+                                             !.taint = @ \cup (IF hd.open /\ ~hd.clean THEN {hd.name} ELSE {})
+                                                         \cup (IF st.parked.open /\ ~st.parked.clean THEN {st.parked.name} ELSE {})], "drop_cf")
     [] e.op = "walk" -> V(v = WalkList(st.files), st, "walk")
     [] e.op = "entry" -> V(v = RLen(st.files[e.name]), st, "entry")
     [] e.op = "exists" -> V(v = (e.name \in DOMAIN st.files), st, "exists")
@@ -198,10 +203,13 @@ AfterErr(st, e) ==
                        ELSE IF e.op \in {"create_stream", "remove_stream"} THEN @ \cup {e.name}
                        ELSE @]
 
+(* once the CompoundFile is gone every judgement is informational (beyond the listed properties) *)
+GTag(t) == IF s.gone THEN "XDROP" ELSE t
+
 OpStep(e) ==
   IF skip THEN UNCHANGED <<s, skip>>
   ELSE IF e.res.k = "panic"
-  THEN /\ Fail("PANIC", e.op, e) /\ skip' = TRUE /\ UNCHANGED s
+  THEN /\ Fail(IF s.gone THEN "XDROP" ELSE "PANIC", e.op, e) /\ skip' = TRUE /\ UNCHANGED s
   ELSE IF e.res.k = "err" /\ e.res.e \in {"NoFile", "NoHandle"}
   THEN UNCHANGED <<s, skip>>          \* harness-level: nothing was called
   ELSE IF NeedsHandle(e) /\ ~s.hd.open
@@ -212,6 +220,18 @@ OpStep(e) ==
   LET exp == ExpectErr(s, e)
       fired == Fired(e)
   IN
+  IF s.gone /\ NeedsHandle(e) /\ e.res.k = "err" /\ e.res.e \notin exp
+  THEN (* beyond the listed properties (tag XDROP, informational): once the CompoundFile is gone a call   *)
+       (* that needs the file reports an error - never for len / position / consume, which are served    *)
+       (* from the handle - and leaves the handle's cursor where the next position() says it is          *)
+       IF e.op \in {"len", "position", "consume"} \/ e.res.e # "Other"
+       THEN /\ Fail("XDROP", "error-after-drop:" \o e.op, e) /\ skip' = TRUE /\ UNCHANGED s
+       ELSE /\ s' = [s EXCEPT !.hd.known = IF e.op \in {"write_all", "read_to_end"} THEN FALSE ELSE @, !.hd.fill = 0]
+            /\ skip' = FALSE
+  ELSE IF s.gone /\ e.res.k = "ok" /\ ((e.op = "flush" /\ ~s.hd.clean) \/ (e.op = "set_len" /\ e.n # Len_(s)))
+  THEN \* nothing can have been written: an Ok here claims durability that cannot exist
+       /\ Fail("XDROP", "ok-after-drop:" \o e.op, e) /\ skip' = TRUE /\ UNCHANGED s
+  ELSE
   IF e.res.k = "err"
   THEN (* an error result *)
        IF e.res.e \in exp
@@ -229,13 +249,13 @@ OpStep(e) ==
             \* has been retried successfully
             /\ Fail("C13", "stream-lost", e) /\ skip' = TRUE /\ UNCHANGED s
        ELSE IF s.mode = "plain" \/ ~(fired \/ s.faulted)
-       THEN /\ Fail("C06", "unexpected-error", e)
+       THEN /\ Fail(GTag("C06"), "unexpected-error", e)
             /\ PrintT(<<"EXPECTED", exp, "GOT", e.res>>)
             /\ skip' = TRUE /\ UNCHANGED s
        ELSE /\ s' = AfterErr(s, e) /\ skip' = FALSE                         \* injected failure surfaced
   ELSE (* Ok result *)
        IF exp # {}
-       THEN /\ Fail("C06", "missing-refusal", e) /\ skip' = TRUE /\ UNCHANGED s
+       THEN /\ Fail(GTag("C06"), "missing-refusal", e) /\ skip' = TRUE /\ UNCHANGED s
        ELSE IF fired /\ s.mode = "rw_faults" /\ e.op # "close"
        THEN /\ Fail("C13", "fault-swallowed", e) /\ skip' = TRUE /\ UNCHANGED s
        ELSE
@@ -243,11 +263,11 @@ OpStep(e) ==
            relaxed == s.mode = "rw_faults" /\ (s.faulted \/ s.taint # {}) /\ e.op \notin {"fresh_read", "len", "flush"}
            lenok == (Has(e, "len") /\ r.st.hd.open /\ r.st.hd.name \notin r.st.taint) => e.len = RLen(r.st.hd.view)
        IN IF ~r.valid /\ ~relaxed
-          THEN /\ Fail(IF r.rule = "flush-reaches-backend" THEN "C13" ELSE IF s.mode = "ro_faults" THEN "C12"
+          THEN /\ Fail(IF s.gone THEN "XDROP" ELSE IF r.rule = "flush-reaches-backend" THEN "C13" ELSE IF s.mode = "ro_faults" THEN "C12"
                        ELSE IF s.mode = "rw_faults" THEN "C13" ELSE "C06", r.rule, e)
                /\ skip' = TRUE /\ UNCHANGED s
           ELSE IF ~lenok
-          THEN /\ Fail("C06", "len-not-current", e) /\ skip' = TRUE /\ UNCHANGED s
+          THEN /\ Fail(GTag("C06"), "len-not-current", e) /\ skip' = TRUE /\ UNCHANGED s
           ELSE /\ s' = [r.st EXCEPT !.faulted = @ \/ fired,
                                   \* a failure swallowed by a drop leaves that stream's update unfinished for good
                                   !.unrec = IF fired THEN @ \cup {<<"*">>} ELSE @ \ Finishes(s, e)]
